@@ -26,13 +26,14 @@ Definition requested (o : op) : list (point * Z) :=
   | OpFillSolid r c => map (fun p => (p, c)) (points r)
   | OpFillContiguous r cs => zip (points r) cs
   | OpClear c => map (fun p => (p, c)) (points (R (P 0 0) (S SIZE SIZE)))
-  | OpSetPixel _ _ | OpSetAllowOverdraw _ | OpSetAllowOob _ => []
+  | OpSetPixel _ _ | OpSetPixels _ _ | OpSetAllowOverdraw _ | OpSetAllowOob _ => []
   end.
 
 (* what an operation does to single cells: (point, new content); set_pixel may also erase *)
 Definition events (o : op) : list (point * option Z) :=
   match o with
   | OpSetPixel p v => [(p, v)]
+  | OpSetPixels l v => map (fun p => (p, v)) l
   | _ => map (fun pc : point * Z => (fst pc, Some (snd pc))) (requested o)
   end.
 
@@ -59,7 +60,7 @@ Fixpoint last_write (p : point) (ws : list (point * Z)) : option Z :=
   end.
 
 Definition is_draw (o : op) : bool :=
-  match o with OpSetPixel _ _ | OpSetAllowOverdraw _ | OpSetAllowOob _ => false | _ => true end.
+  match o with OpSetPixel _ _ | OpSetPixels _ _ | OpSetAllowOverdraw _ | OpSetAllowOob _ => false | _ => true end.
 
 (* the panic rule of the property, as a scan over the requested writes: `seen` = cells drawn so far.
    A write outside the display offends iff out-of-bounds drawing is not allowed (otherwise it is skipped);
@@ -247,6 +248,36 @@ Proof.
     split; [reflexivity|]. split; [congruence|]. intros q. reflexivity.
 Qed.
 
+Lemma set_pixels_spec l : forall d v,
+  set_pixels d l v =
+    if forallb in_displayb l then Ok (fold_left (fun acc p => put acc p v) l d) else Panic PSetPixel.
+Proof.
+  induction l as [|p t IH]; intros d v; cbn [set_pixels forallb fold_left]; [reflexivity|].
+  rewrite set_pixel_spec. destruct (in_displayb p); cbn [bind andb]; [apply IH|reflexivity].
+Qed.
+
+Lemma gp_fold_put l : forall d v q,
+  Forall in_display l ->
+  gp (fold_left (fun acc p => put acc p v) l d) q = if existsb (point_eqb q) l then v else gp d q.
+Proof.
+  induction l as [|p t IH]; intros d v q Hl; cbn [fold_left existsb]; [reflexivity|].
+  inversion Hl as [|? ? Hp Ht]; subst. rewrite IH by assumption. rewrite gp_put by assumption.
+  destruct (existsb (point_eqb q) t); [rewrite orb_true_r; reflexivity|]. rewrite orb_false_r. reflexivity.
+Qed.
+
+
+Lemma flags_fold_put l : forall d v,
+  allow_overdraw (fold_left (fun acc p => put acc p v) l d) = allow_overdraw d /\
+  allow_oob (fold_left (fun acc p => put acc p v) l d) = allow_oob d.
+Proof. induction l as [|p t IH]; intros d v; cbn [fold_left]; [split; reflexivity|]. apply (IH (put d p v) v). Qed.
+
+Lemma last_event_const q l v :
+  last_event q (map (fun p : point => (p, v)) l) = if existsb (point_eqb q) l then Some v else None.
+Proof.
+  induction l as [|p t IH]; cbn [map last_event existsb]; [reflexivity|]. rewrite IH.
+  destruct (existsb (point_eqb q) t); [rewrite orb_true_r; reflexivity|]. rewrite orb_false_r. reflexivity.
+Qed.
+
 (* ===== Part 2: histories ============================================================================= *)
 
 Lemma fold_panic {A} (f : A -> op -> result A) ops k :
@@ -336,6 +367,10 @@ Proof.
     + rewrite set_pixel_spec. destruct (in_displayb p) eqn:E; [|discriminate].
       intros H; inversion H; subst d'. intros q Hq. rewrite gp_put by (apply in_displayb_spec, E).
       destruct (point_eqb q p); reflexivity.
+    + rewrite set_pixels_spec. destruct (forallb in_displayb l) eqn:E; [|discriminate].
+      intros H; inversion H; subst d'. intros q Hq. rewrite last_event_const, gp_fold_put.
+      * destruct (existsb (point_eqb q) l); reflexivity.
+      * apply Forall_forall. intros x Hx. rewrite forallb_forall in E. apply in_displayb_spec, E, Hx.
     + intros H; inversion H; subst. reflexivity.
     + intros H; inversion H; subst. reflexivity.
 Qed.
@@ -479,7 +514,8 @@ Proof.
   destruct (is_draw o) eqn:Ed.
   - rewrite requested_draw by assumption. intros H. apply draw_iter_panic_kind in H. tauto.
   - destruct o; try discriminate; cbn [apply_op]; try discriminate.
-    rewrite set_pixel_spec. destruct (in_displayb p); [discriminate|]. intros H; inversion H. auto.
+    + rewrite set_pixel_spec. destruct (in_displayb p); [discriminate|]. intros H; inversion H. auto.
+    + rewrite set_pixels_spec. destruct (forallb in_displayb l); [discriminate|]. intros H; inversion H. auto.
 Qed.
 
 (* ===== Part 3: affected_area ========================================================================= *)
@@ -1548,6 +1584,8 @@ Fixpoint ref_pixels (s : rstate) (ws : list (point * Z)) : result rstate :=
 Definition ref_op (s : rstate) (o : op) : result rstate :=
   match o with
   | OpSetPixel p v => if in_displayb p then Ok (RS (r_ao s) (r_ab s) (r_evs s ++ [(p, v)])) else Panic PSetPixel
+  | OpSetPixels l v =>
+      if forallb in_displayb l then Ok (RS (r_ao s) (r_ab s) (r_evs s ++ map (fun p => (p, v)) l)) else Panic PSetPixel
   | OpSetAllowOverdraw b => Ok (RS b (r_ab s) (r_evs s))
   | OpSetAllowOob b => Ok (RS (r_ao s) b (r_evs s))
   | _ => ref_pixels s (requested o)
@@ -1594,6 +1632,12 @@ Proof.
     + rewrite set_pixel_spec. destruct (in_displayb p) eqn:Ep; [|reflexivity].
       split; [exact Ha|]. split; [exact Hb|]. cbn [r_evs]. intros q Hq.
       rewrite gp_put, content_snoc by (apply in_displayb_spec, Ep). destruct (point_eqb q p); [reflexivity|apply Hg, Hq].
+    + rewrite set_pixels_spec. destruct (forallb in_displayb l) eqn:El; [|reflexivity].
+      destruct (flags_fold_put l d v) as [Fa Fb].
+      split; [rewrite Fa; exact Ha|]. split; [rewrite Fb; exact Hb|]. cbn [r_evs]. intros q Hq.
+      rewrite gp_fold_put by (apply Forall_forall; intros x Hx; rewrite forallb_forall in El; apply in_displayb_spec, El, Hx).
+      unfold content. rewrite last_event_app, last_event_const.
+      destruct (existsb (point_eqb q) l); [reflexivity|]. apply Hg, Hq.
     + split; [reflexivity|]. split; [exact Hb|exact Hg].
     + split; [exact Ha|]. split; [reflexivity|exact Hg].
 Qed.
@@ -1660,23 +1704,6 @@ Proof.
   exists t. split; [assumption|]. intros p. rewrite !get_pixel_gp, Hg, existsb_points_bb, gp_new. f_equal.
   destruct (in_displayb p) eqn:Ep; [reflexivity|].
   rewrite gp_outside by (apply in_displayb_false, Ep). reflexivity.
-Qed.
-
-Lemma set_pixels_spec l : forall d v,
-  set_pixels d l v =
-    if forallb in_displayb l then Ok (fold_left (fun acc p => put acc p v) l d) else Panic PSetPixel.
-Proof.
-  induction l as [|p t IH]; intros d v; cbn [set_pixels forallb fold_left]; [reflexivity|].
-  rewrite set_pixel_spec. destruct (in_displayb p); cbn [bind andb]; [apply IH|reflexivity].
-Qed.
-
-Lemma gp_fold_put l : forall d v q,
-  Forall in_display l ->
-  gp (fold_left (fun acc p => put acc p v) l d) q = if existsb (point_eqb q) l then v else gp d q.
-Proof.
-  induction l as [|p t IH]; intros d v q Hl; cbn [fold_left existsb]; [reflexivity|].
-  inversion Hl as [|? ? Hp Ht]; subst. rewrite IH by assumption. rewrite gp_put by assumption.
-  destruct (existsb (point_eqb q) t); [rewrite orb_true_r; reflexivity|]. rewrite orb_false_r. reflexivity.
 Qed.
 
 (* from_points: panics (set_pixel's assertion) exactly when some point is outside the display; otherwise exactly the
